@@ -94,7 +94,7 @@ pub fn incan_bin() -> PathBuf {
     if let Ok(p) = std::env::var("VERIF_INCAN") {
         return PathBuf::from(p);
     }
-    Path::new(crate::VERIF_ROOT).join("engine/target/release/incan")
+    crate::verif_root().join("engine/target/release/incan")
 }
 
 pub fn default_workers() -> usize {
@@ -110,7 +110,7 @@ impl Farm {
     }
 
     pub fn with_workers(tag: &str, workers: usize) -> Farm {
-        let work = Path::new(crate::VERIF_ROOT).join("work").join(tag);
+        let work = crate::verif_root().join("work").join(tag);
         let _ = std::fs::remove_dir_all(&work);
         let _ = std::fs::create_dir_all(&work);
         let pool = rayon::ThreadPoolBuilder::new()
@@ -131,12 +131,13 @@ impl Farm {
     }
 
     pub fn target_dir(k: usize) -> PathBuf {
-        Path::new(crate::VERIF_ROOT).join("work").join(format!("tgt{k}"))
+        let base: usize = std::env::var("VERIF_TGT_BASE").ok().and_then(|s| s.parse().ok()).unwrap_or(0);
+        crate::verif_root().join("work").join(format!("tgt{}", k + base))
     }
 
     /// Directory holding a stub `cargo` that succeeds without doing anything.
     pub fn stub_cargo_dir() -> PathBuf {
-        let dir = Path::new(crate::VERIF_ROOT).join("work").join("stubbin");
+        let dir = crate::verif_root().join("work").join("stubbin");
         let _ = std::fs::create_dir_all(&dir);
         let p = dir.join("cargo");
         if !p.exists() {
@@ -163,6 +164,25 @@ impl Farm {
     /// Run every project once on every worker (warms each private target dir). Returns the number of
     /// failed builds.
     pub fn warm(&self, projects: &[Project], mode: Mode) -> usize {
+        // build on worker 0 first, then clone its target dir for workers that have none (cargo fingerprints do
+        // not depend on the target dir's location), then run everywhere (a no-op rebuild where cloned)
+        let mut bad0 = 0;
+        for p in projects {
+            let o = self.run_one_on(p, mode, 0);
+            if !o.build.as_ref().is_some_and(|b| b.ok()) {
+                eprintln!("warm worker 0 project {}: {:?}", p.name, o.build.as_ref().map(|b| crate::util::truncate(&b.stderr, 2000)));
+                bad0 += 1;
+            }
+        }
+        if bad0 > 0 {
+            return bad0;
+        }
+        for k in 1..self.workers {
+            let d = Self::target_dir(k);
+            if !d.exists() {
+                let _ = Command::new("cp").arg("-a").arg(Self::target_dir(0)).arg(&d).status();
+            }
+        }
         let ks: Vec<usize> = (0..self.workers).collect();
         let bad: Vec<usize> = self.pool.install(|| {
             ks.par_iter()
